@@ -311,6 +311,61 @@ func kStructural(x *vc.Exec, lr *vc.LoadResult, repo string, res *vc.PassResult,
 		}
 	}
 	sink.Structural("internal", "frame", "types-are-compared-by-identity-of-meaning-not-of-pointer", []string{"C14", "C02", "C11", "C13"}, true, fmt.Sprintf("%d functions scanned, %d pointer comparisons of types", len(fns), ncmp))
+	// C02 / C12: the id tables of the generators (typeIDs, nextTypeID, predIDs,
+	// nextPredID) are written only by their constructor and by typeID / predID,
+	// whose contracts keep them injective; no other function stores to the fields
+	// or calls Set / Delete on the maps.
+	idFields := map[string]bool{"typeIDs": true, "nextTypeID": true, "predIDs": true, "nextPredID": true}
+	idOwners := map[string]bool{"newGenerator": true, "newGeneratorV2": true, "typeID": true, "predID": true}
+	nIDAcc := 0
+	for _, fn := range fns {
+		root := fn
+		for root.Parent() != nil {
+			root = root.Parent()
+		}
+		for _, b := range fn.Blocks {
+			for _, in := range b.Instrs {
+				fa, ok := in.(*ssa.FieldAddr)
+				if !ok || !idFields[ssaStructField(fa)] {
+					continue
+				}
+				pt, ok := fa.X.Type().Underlying().(*types.Pointer)
+				if !ok {
+					continue
+				}
+				if nt, ok := pt.Elem().(*types.Named); !ok || (nt.Obj().Name() != "generator" && nt.Obj().Name() != "generatorv2") {
+					continue
+				}
+				for _, r := range *fa.Referrers() {
+					bad := ""
+					switch r := r.(type) {
+					case *ssa.Store:
+						if r.Addr == fa {
+							bad = "store to " + ssaStructField(fa)
+						}
+					case *ssa.UnOp:
+						// the loaded map must not be mutated or leaked outside the owners
+						if r.Referrers() != nil {
+							for _, u := range *r.Referrers() {
+								if c, ok := u.(ssa.CallInstruction); ok {
+									if f, ok := c.Common().Value.(*ssa.Function); ok && (f.Name() == "Set" || f.Name() == "Delete" || f.Name() == "SetHasher") {
+										bad = f.Name() + " on " + ssaStructField(fa)
+									}
+								}
+							}
+						}
+					}
+					if bad == "" {
+						continue
+					}
+					nIDAcc++
+					good := idOwners[root.Name()]
+					sink.Structural(relName(fn), "frame", "id-tables-written-only-by-their-owners", []string{"C02", "C11", "C12", "C20"}, good, bad+" at "+pos(r))
+				}
+			}
+		}
+	}
+	sink.Structural("internal", "frame", "id-tables-written-only-by-their-owners", []string{"C02", "C11", "C12", "C20"}, true, fmt.Sprintf("%d writes to the generators' id tables, all in newGenerator*/typeID/predID", nIDAcc))
 	// C20: the source-map flag only selects comment emission
 	checkSourceMapFrame(sink, lr, fns, pos)
 	res.Extra["frame_counts"] = counts
